@@ -60,9 +60,34 @@ def dropHelpers (n0 : Nat) (m : Model) : Model :=
 def backwardModel (m : Model) (considerDue : Bool) : Model :=
   if considerDue then withHelpers (revDeps m) else revDeps m
 
+/-- the helper tasks are NEW objects: whatever the state says at task indices `≥ m.nT` (they stand for no
+object of `m`), the inner run starts with constructor values there — `BaseTask(...)`: state NONE, remaining work
+= work amount, est = eft = 0, lst = lft = -1, nothing allocated, empty logs.  (With `init_state`/`init_log`
+set this is what `initialize` produces anyway; it matters for `initialize_*_info=False`.) -/
+def freshHelpers (m mb : Model) (s : St) : St :=
+  { s with
+    live := { s.live with
+      tstate := fun t => if m.nT ≤ t then .none else s.live.tstate t
+      rem := fun t => if m.nT ≤ t then (mb.task t).work * (1 - (mb.task t).prog) else s.live.rem t
+      est := fun t => if m.nT ≤ t then 0 else s.live.est t
+      eft := fun t => if m.nT ≤ t then 0 else s.live.eft t
+      lst := fun t => if m.nT ≤ t then -1 else s.live.lst t
+      lft := fun t => if m.nT ≤ t then -1 else s.live.lft t
+      allocW := fun t => if m.nT ≤ t then [] else s.live.allocW t
+      allocF := fun t => if m.nT ≤ t then [] else s.live.allocF t }
+    logs := { s.logs with
+      tState := fun t => if m.nT ≤ t then [] else s.logs.tState t
+      tRem := fun t => if m.nT ≤ t then [] else s.logs.tRem t
+      tAllocW := fun t => if m.nT ≤ t then [] else s.logs.tAllocW t
+      tAllocF := fun t => if m.nT ≤ t then [] else s.logs.tAllocF t } }
+
+/-- the state the inner run of `backward_simulate` starts from -/
+def bwdStart (m : Model) (considerDue : Bool) (s : St) : St :=
+  freshHelpers m (backwardModel m considerDue) s
+
 /-- `BaseProject.backward_simulate(...)`: the state it leaves (the static model is `m` again) -/
 def backwardSimulate (m : Model) (p : Params) (considerDue reverse : Bool) (s : St) : St :=
-  let s1 := simulate (backwardModel m considerDue) p s
+  let s1 := simulate (backwardModel m considerDue) p (bwdStart m considerDue s)
   let s2 := { s1 with mode := .backward }
   if reverse then reverseLogs m s2 else s2
 
